@@ -567,6 +567,19 @@ func ruleC17RelativeResolution(c *Check, m *c17Info) {
 										changed = true
 									}
 								}
+								// a normalising helper (`"." -> ""`) hands its parameter back
+								if !derived[call] {
+									for _, r := range engine.Returns(h) {
+										for _, rv := range r.Results {
+											for _, o := range engine.Origins(rv) {
+												if o != nil && derived[o] {
+													derived[call] = true
+													changed = true
+												}
+											}
+										}
+									}
+								}
 							}
 						}
 						if st, ok := in.(*ssa.Store); ok {
